@@ -22,10 +22,10 @@ Theorem c18_truncate : forall content flen short m s,
   let '(rs, sf) := read_run content flen short m s in In RErrEof rs /\ ~ In REnd rs.
 Proof. exact read_truncated. Qed.
 
-(* The ETag is identical for every instance with the same inode, length and modification time and
-   differs as soon as one of them changes ... *)
+(* The ETag is identical for every instance with the same inode, length and modification time (a time
+   before 1970 included: magnitude and side of the epoch) and differs as soon as one of them changes ... *)
 Theorem c18_etag_injective : forall m m', crf_etag m = crf_etag m' <->
-  (f_ino m = f_ino m' /\ f_len m = f_len m' /\ f_mtime_ns m = f_mtime_ns m').
+  (f_ino m = f_ino m' /\ f_len m = f_len m' /\ f_mtime_ns m = f_mtime_ns m' /\ f_mtime_neg m = f_mtime_neg m').
 Proof. exact etag_injective. Qed.
 (* ... and is a syntactically valid strong tag *)
 Theorem c18_etag_strong : forall m, exists opaque, crf_etag m = [34] ++ opaque ++ [34] /\ ~ In 34 opaque.
@@ -33,7 +33,8 @@ Proof. exact etag_is_strong_tag. Qed.
 
 (* construction refuses non-regular files and captures length and modification time *)
 Theorem c18_new : forall m, (f_is_file m = false -> crf_new m = None) /\
-  (f_is_file m = true -> exists e, crf_new m = Some e /\ crf_len e = f_len m /\ crf_last_modified e = f_mtime_ns m).
+  (f_is_file m = true -> exists e, crf_new m = Some e /\ crf_len e = f_len m /\ crf_last_modified e = f_mtime_ns m /\
+                         crf_last_modified_neg e = f_mtime_neg m).
 Proof. exact crf_new_spec. Qed.
 
 (* ... served through `serve` with Range headers. Seen as an entity stream (the events of
